@@ -1,4 +1,192 @@
-import AkVerif.Model.Ghist
-/-! # C06 — under construction -/
+import AkVerif.Lemmas.GhistReport
+/-!
+# C06 — the history report attributes every matching commit to the right build per branch
+
+Property theorems only.  They are about `Ghist.report` / `Ghist.rgraph`, the functions the driver `Drv/C06.lean`
+executes, for an arbitrary component plug `pl` (so they also cover the multi-repository reports of C07).
+Histories are lists of commits in topological order (`Hist.Topo`: parents have smaller ids — what the harness
+feeds, and what git guarantees up to renumbering).
+-/
 namespace C06
+open Ghist Ak
+
+/-! ## C06.order — branch ordering -/
+
+/-- `BranchName.cmp` is a strict order: irreflexive … -/
+theorem order_irrefl (a : List Item) : ltKey a a = false := ltKey_irrefl a
+
+/-- … asymmetric … -/
+theorem order_asymm (a b : List Item) (h : ltKey a b = true) : ltKey b a = false := ltKey_asymm a b h
+
+/-- … transitive … -/
+theorem order_trans (a b c : List Item) (h1 : ltKey a b = true) (h2 : ltKey b c = true) : ltKey a c = true :=
+  ltKey_trans a b c h1 h2
+
+/-- … and "not below" is transitive too (strict weak order; in fact total: unordered keys are equal) -/
+theorem order_weak (a b c : List Item) (h1 : ltKey b a = false) (h2 : ltKey c b = false) : ltKey c a = false :=
+  not_ltKey_trans a b c h1 h2
+
+theorem order_total (a b : List Item) (h1 : ltKey a b = false) (h2 : ltKey b a = false) : a = b :=
+  ltKey_total a b h1 h2
+
+/-- numeric-aware: two names that agree up to a numeric item are ordered by that number
+(`release/1.2 < release/1.10`), whatever follows -/
+theorem order_numeric (pre s t : List Item) (a b : Nat) (h : a < b) :
+    ltKey (pre ++ Item.int a :: s) (pre ++ Item.int b :: t) = true := by
+  induction pre with
+  | nil =>
+    simp only [List.nil_append, ltKey, cmpKey, cmpItem]
+    have : (a : Int) - (b : Int) ≠ 0 := by omega
+    simp only [this, ne_eq, not_false_eq_true, if_true, decide_eq_true_eq]
+    omega
+  | cons x pre ih =>
+    simp only [List.cons_append, ltKey, cmpKey, cmpItem_self, ne_eq, not_true_eq_false, if_false]
+    exact ih
+
+/-- a number sorts below any word (`release/2 < release/beta`) -/
+theorem order_num_lt_word (pre s t : List Item) (a : Nat) (w : List Char) :
+    ltKey (pre ++ Item.int a :: s) (pre ++ Item.str w :: t) = true := by
+  induction pre with
+  | nil => simp [ltKey, cmpKey, cmpItem]
+  | cons x pre ih =>
+    simp only [List.cons_append, ltKey, cmpKey, cmpItem_self, ne_eq, not_true_eq_false, if_false]
+    exact ih
+
+/-- the sort items of a name are what the docstring of `BranchName` says -/
+example : branchKey "origin/release/10.250".toList =
+    [.str "origin".toList, .str "release".toList, .int 10, .int 250] := by decide
+example : branchKey "release/ABA12.5U1".toList =
+    [.str "release".toList, .str "ABA12".toList, .str "5U1".toList] := by decide
+example : ltKey (branchKey "origin/release/1.2".toList) (branchKey "origin/release/1.10".toList) = true := by decide
+
+theorem splitItems_word (w : List Char) (hw : ∀ c ∈ w, isSep c = false) (c : Char) (hc : isSep c = true)
+    (t cur : List Char) (hne : w ≠ [] ∨ cur ≠ []) :
+    splitItems (w ++ c :: t) cur = (cur.reverse ++ w) :: splitItems t [] := by
+  induction w generalizing cur with
+  | nil =>
+    have hcur : cur ≠ [] := by rcases hne with h | h; exact absurd rfl h; exact h
+    have : cur.isEmpty = false := by cases cur <;> simp_all
+    simp [splitItems, hc, this]
+  | cons x w ih =>
+    have hx : isSep x = false := hw x (by simp)
+    simp only [List.cons_append, splitItems, hx, Bool.false_eq_true, if_false]
+    rw [ih (fun c hc => hw c (by simp [hc])) (x :: cur) (Or.inr (by simp))]
+    simp
+
+/-- every release branch sorts below master: the first sort item of a release branch is the remote name, the
+first item of master is the sentinel `"zzzzzzzzzzzzzz"`.  Hypothesis (as in the design): the remote name is a
+single chunk that is a number or sorts below the sentinel (`origin` does). -/
+theorem order_release_lt_master (remote rest ref : List Char) (hne : remote ≠ [])
+    (hsep : ∀ c ∈ remote, isSep c = false)
+    (hlt : isNum remote = true ∨ strLt remote sentinel = true) :
+    ltKey (branchKey (remote ++ Gen.Ghist.release ++ rest)) (Item.str sentinel :: branchKey ref) = true := by
+  have hrel : ∃ c t, Gen.Ghist.release = c :: t ∧ isSep c = true := ⟨'/', "release/".toList, by decide, by decide⟩
+  obtain ⟨c, t, hct, hc⟩ := hrel
+  have : branchKey (remote ++ Gen.Ghist.release ++ rest) = mkItem remote :: branchKey (t ++ rest) := by
+    unfold branchKey
+    rw [hct, List.append_assoc, List.cons_append, splitItems_word remote hsep c hc (t ++ rest) [] (Or.inl hne)]
+    simp
+  rw [this]
+  simp only [ltKey, cmpKey, mkItem]
+  rcases hlt with hn | hs
+  · simp [hn, cmpItem]
+  · by_cases hn : isNum remote = true
+    · simp [hn, cmpItem]
+    · have hsa := strLt_asymm remote sentinel hs
+      simp [hn, cmpItem, hs, hsa]
+
+example : "origin".toList ≠ [] ∧ (∀ c ∈ "origin".toList, isSep c = false) ∧
+    strLt "origin".toList sentinel = true := by decide
+
+/-- the branches are read in sorted order: the sorted list is a permutation of the release/master refs and no
+later branch is strictly below an earlier one -/
+theorem order_sorted {π} (h : Hist π) :
+    (branchesOf h).Perm (releaseBranches h.remote h.refs) ∧
+    Sorted (fun a b : Branch => ltKey a.key b.key) (branchesOf h) :=
+  ⟨sortBy_perm _ _,
+   sortBy_sorted _ (fun a b => ltKey_asymm a.key b.key) (fun a b c => not_ltKey_trans a.key b.key c.key) _⟩
+
+/-! ## C06.no_nonmatching / at most once -/
+
+/-- no commit that does not match is listed — under any build of any branch, the "not merged" entry included -/
+theorem no_nonmatching {π β} (h : Hist π) (hT : h.Topo) (pl : Plug π β) (rep : List RepBranch)
+    (hr : report h pl = .ok rep) :
+    ∀ B ∈ rep, ∀ b ∈ B.builds, ∀ c ∈ b.commits, h.isMatch c = true := by
+  obtain ⟨g, hg, hrep, _⟩ := report_branch hr
+  have hf := rgraph_facts hT hg
+  intro B hB b hb c hc
+  rw [hrep] at hB
+  obtain ⟨rb, _, rfl⟩ := List.mem_map.mp hB
+  simp only [repBranch] at hb
+  obtain ⟨b0, _, rfl⟩ := List.mem_map.mp hb
+  obtain ⟨i, _, rc, h1, h2, h3⟩ := (mem_repBuild_commits g.rcs b0 c).mp hc
+  rw [← h3, ← hf.rcExp i rc h1, h2]
+
+/-- **partial** (C06.at_most_once): inside one reported branch no commit is repeated under a build, and no commit
+is listed under two different builds that have a build commit.
+Full statement (kept for the record): `∀ B ∈ rep, ∀ c, c is listed at most once in B`, the "not merged" entry
+included.  Missing: a commit under "not merged" is not also listed under a build — it follows from
+`not_merged_exact` (such a commit is not reachable from the head) and `only_matching` (commits under builds are). -/
+theorem at_most_once_partial {π β} (h : Hist π) (hT : h.Topo) (pl : Plug π β) (rep : List RepBranch)
+    (hr : report h pl = .ok rep) :
+    ∀ B ∈ rep,
+      (∀ b ∈ B.builds, b.commits.Nodup) ∧
+      (∀ (i j : Nat) (b1 b2 : RepBuild), i ≠ j → B.builds[i]? = some b1 → B.builds[j]? = some b2 →
+        b1.notMerged = false → b2.notMerged = false → ∀ c ∈ b1.commits, c ∉ b2.commits) := by
+  obtain ⟨g, hg, hrep, hbr⟩ := report_branch hr
+  have hf := rgraph_facts hT hg
+  intro B hB
+  rw [hrep] at hB
+  obtain ⟨rb, hrb, rfl⟩ := List.mem_map.mp hB
+  have hrb' : rb ∈ g.all := by
+    rw [hbr] at hrb
+    exact List.mem_reverse.mp (List.mem_filter.mp hrb).1
+  have hfb := hf.facts rb hrb'
+  constructor
+  · intro b hb
+    simp only [repBranch] at hb
+    obtain ⟨b0, hb0, rfl⟩ := List.mem_map.mp hb
+    have hb0' := (mem_buildsList rb b0).mp hb0
+    exact explicitCommits_nodup g.rcs hf.rcInj _ (descending_nodup _ (hfb.nodup b0 hb0'))
+  · intro i j b1 b2 hij h1 h2 hn1 hn2 c hc1 hc2
+    simp only [repBranch, List.getElem?_map] at h1 h2
+    cases ha : (buildsList rb)[i]? with
+    | none => rw [ha] at h1; cases h1
+    | some a =>
+      cases hb : (buildsList rb)[j]? with
+      | none => rw [hb] at h2; cases h2
+      | some b =>
+        rw [ha] at h1; rw [hb] at h2
+        simp only [Option.map_some, Option.some.injEq] at h1 h2
+        subst h1; subst h2
+        have hna : a.rcommit.isSome = true := by
+          simp only [repBuild] at hn1; cases hx : a.rcommit <;> simp_all
+        have hnb : b.rcommit.isSome = true := by
+          simp only [repBuild] at hn2; cases hx : b.rcommit <;> simp_all
+        have hne := buildsList_distinct hfb i j a b hij ha hb hna hnb
+        obtain ⟨r1, hr1, rc1, hg1, _, hc1'⟩ := (mem_repBuild_commits g.rcs a c).mp hc1
+        obtain ⟨r2, hr2, rc2, hg2, _, hc2'⟩ := (mem_repBuild_commits g.rcs b c).mp hc2
+        have : r1 = r2 := hf.rcInj r1 r2 rc1 rc2 hg1 hg2 (by rw [hc1', hc2'])
+        subst this
+        exact hfb.disj a b ((mem_buildsList rb a).mp (List.mem_of_getElem? ha))
+          ((mem_buildsList rb b).mp (List.mem_of_getElem? hb)) hna hnb hne r1 hr1 hr2
+
+/-! ## Non-vacuity: a concrete history (merge, two branches, head of the second inside the first) evaluated by the
+kernel — the hypotheses `Hist.Topo` and `report … = .ok …` are satisfiable and the report is not empty. -/
+
+def exHist : Hist Unit :=
+  { commits := [⟨[], [], true, ()⟩, ⟨[0], [⟨1, 2, 7, 7⟩], false, ()⟩, ⟨[0], [], true, ()⟩,
+                ⟨[2, 1], [⟨1, 2, 9, 9⟩], false, ()⟩, ⟨[3], [], true, ()⟩, ⟨[1], [], true, ()⟩],
+    remote := "origin".toList,
+    refs := [("origin/master".toList, 4), ("origin/release/1.2".toList, 5), ("origin/feature/x".toList, 2)] }
+
+example : exHist.Topo := Hist.topo_of_topoB _ (by decide)
+
+
+example : report exHist Plug.none = .ok
+    [⟨"master".toList, [⟨true, fakeNM, none, [5]⟩, ⟨false, fakeNB, some 4, [4]⟩,
+                        ⟨false, ⟨1, 2, 9, 9⟩, some 3, [2, 0]⟩]⟩,
+     ⟨"release/1.2".toList, [⟨false, fakeNB, some 5, [5]⟩, ⟨false, ⟨1, 2, 7, 7⟩, some 1, [0]⟩]⟩] := by
+  decide +kernel
+
 end C06
